@@ -205,20 +205,24 @@ def loopStopOp (env : Env) : M Unit :=
 
 /-! ### GenApi node operations through `ParamsCtxt` -/
 
-/-- `IntegerNode::set_value` on `TLParamsLocked` (register write, cached write-through). -/
+/-- `IntegerNode::set_value` on `TLParamsLocked` (register write, cached write-through; a write
+the port reports as failed drops the register's cached value, `register_base.rs`). -/
 def lockSetOp (env : Env) (v : Nat) : M Unit :=
   subOp env (.lockSet v) true nodeErr
     (fun d => { d with lock := v, cache := { d.cache with lock := true } })
+    (fun d => { d with cache := { d.cache with lock := false } })
 
 /-- `CommandNode::execute` on `AcquisitionStart`. -/
 def acqStartOp (env : Env) : M Unit :=
   subOp env .acqStart true nodeErr
     (fun d => { d with acquiring := true, cache := { d.cache with start := true } })
+    (fun d => { d with cache := { d.cache with start := false } })
 
 /-- `CommandNode::execute` on `AcquisitionStop`. -/
 def acqStopOp (env : Env) : M Unit :=
   subOp env .acqStop true nodeErr
     (fun d => { d with acquiring := false, cache := { d.cache with stop := true } })
+    (fun d => { d with cache := { d.cache with stop := false } })
 
 /-- `expect_node!`: `InvalidGenApiXml` when the node is missing or has the wrong interface. -/
 def expectNode (present : Bool) : M Unit :=
